@@ -16,6 +16,7 @@
 //	-prop c11   the NTS clients' cookie pool along histories of exchanges with unauthenticated
 //	            datagrams in front of / instead of the genuine reply (client clauses of C11; driver drv_c11)
 //	-prop c11origin  the pool when datagrams that authenticate but do not echo the request precede the genuine reply (driver drv_c03)
+//	-prop c15wrap    the SCION wrapper's per-path attempt loop under context regimes, a path server that answers interleaved (break)
 //	-prop c20   destination of the NTS-protected request for every kind of server / port an
 //	            NTS key exchange may name (client clause of C20)
 package main
@@ -190,6 +191,9 @@ func gen(c *lib.Ctx) {
 	case "c11":
 		genPool(c, "c11pool-ip", false)
 		genPool(c, "c11pool-scion", true)
+	case "c15wrap": // the per-path attempt loop of MeasureClockOffsetSCION incl. its break in interleaved mode (composition into C15)
+		genWrapCtx(c, "c15wrapctx-scion", true)
+		genHistWrap(c, "c15histwrap-scion", true)
 	case "c11origin":
 		genPoolOrigin(c, "c11origin-ip", false)
 		genPoolOrigin(c, "c11origin-scion", true)
